@@ -140,10 +140,12 @@ const (
 	kJSON   kind = "JSONFormatter"
 	kJSONFF kind = "JSONFormatterFilter"
 	kCEJ    kind = "cloudevents(json)"
-	kCET    kind = "cloudevents(text)"
-	kFile   kind = "FileSink"
-	kWriter kind = "writer.Sink"
-	kChan   kind = "ChannelSink"
+	// SignEventTypes set, no Signer: signing is switched on later through Rotate
+	kCEJLate kind = "cloudevents(json, signer installed later)"
+	kCET     kind = "cloudevents(text)"
+	kFile    kind = "FileSink"
+	kWriter  kind = "writer.Sink"
+	kChan    kind = "ChannelSink"
 	// two distinct FileSink nodes configured with the same Path and FileName (no rotation): not part of the random catalogue
 	kFileSame kind = "FileSink(same file)"
 	// FileSinks that rotate every one to three events (MaxBytes 150): the active file keeps its plain name and is renamed on
@@ -161,7 +163,7 @@ var sinkKinds = []kind{kFile, kWriter, kChan}
 
 func formatOf(k kind) string {
 	switch k {
-	case kCEJ:
+	case kCEJ, kCEJLate:
 		return string(cloudevents.FormatJSON)
 	case kCET:
 		return string(cloudevents.FormatText)
@@ -192,6 +194,8 @@ type world struct {
 	amu       sync.Mutex
 	acked     map[int]bool
 	// per-pipeline view: which sink a pipeline ends in, whether it rejects every event; acknowledged events per type
+	signerOn    int32
+	mustSign    map[int]bool
 	pipes       []pipeInfo
 	ackedByType map[string]map[int]bool
 	notComplete []string
@@ -243,6 +247,11 @@ func (w *world) node(k kind, inst int, fmtFor string) (el.NodeID, el.Node) {
 		n = &el.JSONFormatterFilter{Predicate: func(interface{}) (bool, error) { return true, nil }}
 	case kJSONFFReject:
 		n = &el.JSONFormatterFilter{Predicate: func(interface{}) (bool, error) { return false, nil }}
+	case kCEJLate:
+		u, _ := url.Parse("https://verif.example/late")
+		f := &cloudevents.FormatterFilter{Source: u, Format: cloudevents.FormatJSON, SignEventTypes: []string{"t1", "t2"}}
+		w.ces = append(w.ces, f)
+		n = f
 	case kCEJ, kCET:
 		u, _ := url.Parse("https://verif.example/src")
 		f := &cloudevents.FormatterFilter{Source: u, Format: cloudevents.Format(formatOf(k)), Signer: signer("a"), SignEventTypes: []string{"t1", "t2", "composed"},
@@ -321,7 +330,7 @@ func (w *world) addPipeline(id string, ps pipeSpec) {
 	fmtFor := el.JSONFormat
 	for _, k := range ps.Kinds {
 		switch kind(k) {
-		case kCEJ, kCET, kJSON, kJSONFF, kJSONFFReject:
+		case kCEJ, kCEJLate, kCET, kJSON, kJSONFF, kJSONFFReject:
 			fmtFor = formatOf(kind(k))
 		}
 	}
@@ -334,7 +343,7 @@ func (w *world) addPipeline(id string, ps pipeSpec) {
 			if !seenFmt {
 				encAhead = true
 			}
-		case kJSON, kJSONFF, kJSONFFReject, kCEJ, kCET:
+		case kJSON, kJSONFF, kJSONFFReject, kCEJ, kCEJLate, kCET:
 			seenFmt = true
 			if kind(k) == kJSONFFReject {
 				rejects = true
@@ -403,6 +412,10 @@ type scenario struct {
 	// PerPipeline: every pipeline has its own sink; a pipeline that does not reject must show every acknowledged event of its
 	// type exactly once in ITS sink and Send must report that sink complete, whatever the other pipelines of the type do
 	PerPipeline bool `json:"per_pipeline,omitempty"`
+	// LateSigner: the cloudevents nodes start WITHOUT a signer; the control "ce-install-signer" installs one through Rotate once a
+	// quarter of the events is out (and keeps rotating): an event of a listed type whose Send started after that first Rotate
+	// returned must be signed, by one of the signers installed
+	LateSigner bool `json:"late_signer,omitempty"`
 	// RebindReopen: the hand-written logrotate scenario (two FileSinks registered successively under one node id)
 	RebindReopen bool `json:"rebind_reopen,omitempty"`
 }
@@ -545,13 +558,14 @@ func runScenario(sc scenario, seed uint64, dir string) result {
 	ctx := context.Background()
 	send := func(rs *hc.Rand, t string, idx int) {
 		var pl interface{}
-		if sc.ExactOnce || sc.PlainOnly || sc.PerPipeline {
+		must := sc.LateSigner && atomic.LoadInt32(&w.signerOn) == 1
+		if sc.ExactOnce || sc.PlainOnly || sc.PerPipeline || sc.LateSigner {
 			pl = plainP(idx)
 		} else {
 			pl = w.payload(rs, idx, hasGated)
 		}
 		sctx := ctx
-		if !(sc.ExactOnce || sc.PerPipeline || sc.NeedPlain) && idx%8 == 7 {
+		if !(sc.ExactOnce || sc.PerPipeline || sc.NeedPlain || sc.LateSigner) && idx%8 == 7 {
 			// a caller whose context is (or becomes) done: such a Send may reach any subset of the sinks, each line whole
 			var cancel context.CancelFunc
 			switch (idx / 8) % 4 {
@@ -572,6 +586,14 @@ func runScenario(sc scenario, seed uint64, dir string) result {
 		}
 		st, err := w.b.Send(sctx, el.EventType(t), pl)
 		atomic.AddInt64(&w.sent, 1)
+		if must {
+			w.amu.Lock()
+			if w.mustSign == nil {
+				w.mustSign = map[int]bool{}
+			}
+			w.mustSign[idx] = true
+			w.amu.Unlock()
+		}
 		if err != nil {
 			atomic.AddInt64(&w.sendErrs, 1)
 		} else if sc.ExactOnce {
@@ -667,6 +689,24 @@ func runScenario(sc scenario, seed uint64, dir string) result {
 					_ = w.gateds[i%len(w.gateds)].FlushAll(ctx)
 				}
 			})
+		case "ce-install-signer":
+			total := int64(sc.Senders * sc.PerSend)
+			ctl(c, func(i int) {
+				if i == 0 {
+					for atomic.LoadInt64(&w.sent) < total/4 {
+						select {
+						case <-done:
+							return
+						default:
+							time.Sleep(20 * time.Microsecond)
+						}
+					}
+				}
+				for _, f := range w.ces {
+					_ = f.Rotate(signer(fmt.Sprintf("late%d-", i%3)))
+				}
+				atomic.StoreInt32(&w.signerOn, 1) // only now: every Rotate above has returned
+			})
 		case "node-methods":
 			// every exported method of every stock node, racing Process
 			var ns []el.Node
@@ -722,7 +762,10 @@ func runScenario(sc scenario, seed uint64, dir string) result {
 				time.Sleep(500 * time.Microsecond)
 			})
 		case "thresholds":
-			ctl(c, func(i int) { _ = w.b.SetSuccessThreshold(el.EventType(tlist[0]), i%2); w.b.SuccessThresholdSinks(el.EventType(tlist[0])) })
+			ctl(c, func(i int) {
+				_ = w.b.SetSuccessThreshold(el.EventType(tlist[0]), i%2)
+				w.b.SuccessThresholdSinks(el.EventType(tlist[0]))
+			})
 		}
 	}
 	senders.Wait()
@@ -842,6 +885,51 @@ func runScenario(sc scenario, seed uint64, dir string) result {
 				res.Integrity = append(res.Integrity, fmt.Sprintf("%s (pipeline of type %s, %d pipelines share the event): of %d acknowledged events %d are missing from this pipeline's sink and %d are in it more than once (e.g. event %d): a pipeline's outcome depends on what the other pipelines do with the shared event",
 					p.sink, p.typ, pipesOfType(w.pipes, p.typ), len(w.ackedByType[p.typ]), missing, dup, ex))
 			}
+		}
+	}
+	if sc.LateSigner {
+		unsigned, bad, checked, ex := 0, 0, 0, ""
+		for name, cw := range w.writers {
+			dec := json.NewDecoder(bytes.NewReader(cw.buf.Bytes()))
+			for dec.More() {
+				var doc struct {
+					Type           string          `json:"type"`
+					Data           struct{ N int } `json:"data"`
+					Serialized     string          `json:"serialized"`
+					SerializedHmac string          `json:"serialized_hmac"`
+				}
+				if err := dec.Decode(&doc); err != nil {
+					break
+				}
+				if !w.mustSign[doc.Data.N] {
+					continue
+				}
+				checked++
+				if doc.Serialized == "" || doc.SerializedHmac == "" {
+					unsigned++
+					if ex == "" {
+						ex = fmt.Sprintf("event %d of type %s in %s", doc.Data.N, doc.Type, name)
+					}
+					continue
+				}
+				raw, err := base64.RawURLEncoding.DecodeString(doc.Serialized)
+				ok := false
+				for t := 0; t < 3 && err == nil; t++ {
+					ok = ok || doc.SerializedHmac == fmt.Sprintf("late%d-%d", t, len(raw))
+				}
+				if !ok {
+					bad++
+					if ex == "" {
+						ex = fmt.Sprintf("event %d of type %s in %s: serialized_hmac %q", doc.Data.N, doc.Type, name, doc.SerializedHmac)
+					}
+				}
+			}
+		}
+		if unsigned+bad > 0 {
+			res.Integrity = append(res.Integrity, fmt.Sprintf("late signer: of %d events of listed types sent after Rotate(signer) had returned %d are unsigned and %d carry a signature of none of the installed signers (e.g. %s)", checked, unsigned, bad, ex))
+		}
+		if checked == 0 {
+			res.Integrity = append(res.Integrity, "late signer: no event was sent after the signer had been installed (the scenario did not exercise anything)")
 		}
 	}
 	if sc.ExactOnce {
@@ -978,6 +1066,10 @@ func focused(per int) []scenario {
 		{Name: "enc-vs-plain", Senders: 4, PerSend: per, NeedPlain: true, PlainOnly: true,
 			Pipes: []pipeSpec{{Type: "t1", Kinds: k(kJSON, kWriter), Insts: []int{0, 0}}, {Type: "t1", Kinds: k(kEnc, kJSON, kWriter), Insts: []int{0, 1, 1}},
 				{Type: "t1", Kinds: k(kFilter, kEnc, kJSONFF, kFile), Insts: []int{0, 0, 0, 0}}}},
+		// cloudevents nodes shared by two event types that START without a signer and get one through Rotate while the senders run
+		{Name: "ce-late-signer", Senders: 4, PerSend: per, LateSigner: true, Controls: []string{"ce-install-signer"},
+			Pipes: []pipeSpec{{Type: "t1", Kinds: k(kCEJLate, kWriter), Insts: []int{0, 0}}, {Type: "t2", Kinds: k(kFilter, kCEJLate, kWriter), Insts: []int{0, 0, 1}},
+				{Type: "t2", Kinds: k(kCEJLate, kWriter), Insts: []int{1, 2}}}},
 		// two distinct FileSink nodes on the same file: sequential alternation with Reopen in between, then concurrent senders
 		{Name: "filesink-same-file", Senders: 4, PerSend: per / 2, Alternate: 40, ExactOnce: true, Controls: []string{"broker-reopen"},
 			Pipes: []pipeSpec{{Type: "t1", Kinds: k(kJSON, kFileSame), Insts: []int{0, 0}}, {Type: "t2", Kinds: k(kFilter, kJSON, kFileSame), Insts: []int{0, 0, 1}}}},
